@@ -13,7 +13,10 @@ LEVEL_TEXT = (
     "shown total over the closed class set it ranges over (computed from __init_subclass__ whitelists, including which "
     "operations the placement table can put inside a Select's skip target); the compound guard keeps UNION skip targets "
     "away from nodes the compiler must descend through; and every placement that keeps a sort over a reduced column set "
-    "establishes that the sort's columns are still in scope or refuses at construction.  Rejection of the SQL by a "
+    "establishes that the sort's columns are still in scope or refuses at construction; ORDER BY terms are converted "
+    "against the full column mapping of the skip target; the engine is not written to during conversion (who-may-write "
+    "over everything reachable from the conversion entry points); Select markers are built only by apply_skip with "
+    "is_compound taken from the skip target.  Rejection of the SQL by a "
     "particular DBMS dialect is not decided."
 )
 LEVEL_NOTE = (
